@@ -10,7 +10,10 @@ RULE = ("cases = generated coverpoint specifications over bit_t/int_t (w<=8) and
         "auto-bins with auto_bin_max, ignore/illegal bins, iff by field or callable, optionally ONE bins dictionary shared by two "
         "coverpoints; each specification is sampled with a "
         "generated permutation of EVERY value of the type plus repeats, with the iff toggling; after every sample the "
-        "per-bin increment vector must equal the reference membership vector.  non-trivial = the specification has an "
+        "per-bin increment vector must equal the reference membership vector.  A 'wide types' family covers bit_t/int_t of 12-64 "
+        "bits (values and ranges at the type's extremes, around zero, at powers of two; counted arrays over huge ranges, "
+        "auto-bins, ignore/illegal bins) against an interval-list reference, sampling every endpoint of every reference bin "
+        "and exclusion with both neighbours.  non-trivial = the specification has an "
         "array/auto partition with a remainder, or an exclusion that removes values from a regular bin, or overlapping "
         "items; distinct = distinct canonical specification+sample sequence")
 ASSUMPTIONS = [
@@ -176,6 +179,158 @@ def run_case(case, prop=PROPERTY):
     return [], info
 
 
+# ------------------------------------------------------------------------------------------------
+# family: WIDE types (12..64 bits).  The values cannot be enumerated: the reference works on interval lists, and the
+# sample sequence consists of every endpoint of every reference bin / exclusion with its two neighbours, the type's
+# extremes, zero and generated values.
+WIDE_CW = [12, 16, 24, 31, 32, 33, 48, 63, 64]
+
+
+def gen_wide_items(d, lo, hi, nmax=3, small=False):
+    """values and ranges placed at the type's boundaries, around zero, at powers of two and anywhere"""
+    def point():
+        k = d.randint(0, 5)
+        if k == 0:
+            return lo + d.randint(0, 6)
+        if k == 1:
+            return hi - d.randint(0, 6)
+        if k == 2:
+            return max(lo, min(hi, d.randint(-4, 12)))
+        if k == 3:
+            p_ = (1 << d.randint(1, 63)) + d.randint(-2, 2)
+            return max(lo, min(hi, p_ if d.chance(70) else -p_))
+        return d.randint(lo, hi)
+    items = []
+    for _ in range(d.randint(1, nmax)):
+        if d.chance(40):
+            items.append(point())
+        else:
+            a = point()
+            if small or d.chance(60):
+                b = min(hi, a + d.randint(0, 9))
+            else:
+                b = min(hi, a + d.randint(10, max(10, (hi - lo) // d.choice([2, 3, 7, 1000, 1 << 20]))))
+            items.append([a, b] if d.chance(60) else {"t": [a, b]})
+    return items
+
+
+@hyp.composite
+def wide_cases(d):
+    tk = d.weighted([(6, "bit"), (4, "int")])
+    w = d.choice(WIDE_CW)
+    t = {"kind": tk, "w": w}
+    lo, hi = (-(1 << (w - 1)), (1 << (w - 1)) - 1) if tk == "int" else (0, (1 << w) - 1)
+    cp = {"name": "cp", "target": "a"}
+    if d.chance(25):
+        cp["bins"] = None
+    else:
+        bins = []
+        for i in range(d.randint(1, 4)):
+            if d.chance(40):
+                bins.append({"name": "b%d" % i, "kind": "bin", "items": gen_wide_items(d, lo, hi)})
+            else:
+                n = d.choice([None, 1, 2, 3, 4, 5, 7, 16])
+                # an array without a count has one bin per value: small value sets only
+                bins.append({"name": "b%d" % i, "kind": "arr", "n": n, "nstyle": d.choice(["list", "int"]) if n else "list",
+                             "items": gen_wide_items(d, lo, hi, small=(n is None))})
+        cp["bins"] = bins
+    if d.chance(40):
+        cp["ignore"] = [{"name": "ig%d" % i, "items": gen_wide_items(d, lo, hi, 2)} for i in range(d.randint(1, 2))]
+    if d.chance(30):
+        cp["illegal"] = [{"name": "il%d" % i, "items": gen_wide_items(d, lo, hi, 2)} for i in range(d.randint(1, 2))]
+    if d.chance(20):
+        cp["target_style"] = "callable"
+    abm = d.choice([64, 1, 2, 3, 5, 8, 16])
+    iff = d.choice([None, None, "field", "callable"])
+    if iff:
+        cp["iff"] = {iff: "en"}
+    reg, ign, ill = cov.ref_bins_iv(cp, (lo, hi), abm)
+    pts = set([lo, hi, max(lo, min(hi, 0))])
+    for ivs in reg[:24] + reg[-8:] + ign + ill:
+        for a, b in ivs[:4] + ivs[-2:]:
+            for x in (a - 1, a, a + 1, b - 1, b, b + 1):
+                if lo <= x <= hi:
+                    pts.add(x)
+    pts = sorted(pts)
+    if len(pts) > 70:
+        pts = d.sample(pts, 70)
+    order = d.sample(pts, len(pts))
+    for _ in range(d.randint(2, 8)):
+        order.append(d.randint(lo, hi) if d.chance(60) else d.choice(order))
+    samples = [[v, (1 if (not iff or d.chance(70)) else 0)] for v in order]
+    cg = {"name": "CG", "params": [{"name": "a", "type": t}] + ([{"name": "en", "type": {"kind": "bit", "w": 1}}] if iff else []),
+          "options": {"auto_bin_max": abm}, "cps": [cp]}
+    return {"wide": True, "cg": cg, "enums": {}, "samples": samples}
+
+
+def run_wide(case, prop=PROPERTY):
+    _PROP[0] = prop
+    cg = case["cg"]
+    cp = cg["cps"][0]
+    t = cg["params"][0]["type"]
+    w = t["w"]
+    lo, hi = (-(1 << (w - 1)), (1 << (w - 1)) - 1) if t["kind"] == "int" else (0, (1 << w) - 1)
+    for b in (cp.get("bins") or []):
+        if b["kind"] == "arr" and b.get("n") is None and cov.iv_count(cov.iv_norm(b["items"])) > 200:
+            return [], {}        # (not a generated shape)
+    reg, ign, ill = cov.ref_bins_iv(cp, (lo, hi), cg["options"]["auto_bin_max"])
+    reset_library()
+    try:
+        ns = cov.build([cg], {})
+        o = ns["CG"]()
+        m = cov.cp_model(o, "cp")
+    except Exception as e:
+        reset_library()
+        return [V("library_exception", "construction: " + exc_sig(e), case, repr(e)[:200])], {}
+    info = {"nbins": len(reg)}
+    h = cov.hits(m)
+    if [len(x) for x in h] != [len(reg), len(ign), len(ill)]:
+        return [V("bin_count", "regular/ignore/illegal bin counts differ from the reference", case,
+                  "library %s, reference %s" % ([len(x) for x in h], [len(reg), len(ign), len(ill)]))], info
+    has_iff = bool(cp.get("iff"))
+    for v, en in case["samples"]:
+        if not (isinstance(v, int) and lo <= v <= hi):
+            continue
+        bef = cov.hits(m)
+        try:
+            if has_iff:
+                o.sample(v, en)
+            else:
+                o.sample(v)
+        except Exception as e:
+            reset_library()
+            return [V("library_exception", "sample: " + exc_sig(e), case, "sample(%r) raised %r" % (v, e))], info
+        gate = en if has_iff else 1
+        after = cov.hits(m)
+        for which, ref, b, a in (("regular", reg, bef[0], after[0]), ("ignore", ign, bef[1], after[1]), ("illegal", ill, bef[2], after[2])):
+            exp = [(1 if (gate and cov.iv_contains(s_, v)) else 0) for s_ in ref]
+            got = [x - y for x, y in zip(a, b)]
+            if got != exp:
+                hit_e = [i for i, x in enumerate(exp) if x]
+                hit_g = [i for i, x in enumerate(got) if x]
+                return [V("count_mismatch", "%s bins" % which, case,
+                          "sample value %d (iff=%d): bins incremented %s, reference %s (reference bins there: %s)"
+                          % (v, gate, hit_g, hit_e, [ref[i] for i in (hit_e + hit_g)[:3]]))], info
+    return [], info
+
+
+def nontrivial_wide(case):
+    cg = case["cg"]
+    cp = cg["cps"][0]
+    excl = cov.iv_norm([i for b in (cp.get("ignore") or []) + (cp.get("illegal") or []) for i in b["items"]])
+    if cp.get("bins") is None:
+        return True          # 2^w values never divide evenly once anything is excluded; partitions of the whole type count too
+    for b in cp["bins"]:
+        vals = cov.iv_norm(b["items"])
+        if cov.iv_sub(vals, excl) != vals:
+            return True
+        if sum(cov.iv_count(cov.iv_norm([i])) for i in b["items"]) != cov.iv_count(vals):
+            return True
+        if b["kind"] == "arr" and b.get("n") and b["n"] < cov.iv_count(vals) and cov.iv_count(vals) % b["n"] != 0:
+            return True
+    return False
+
+
 def nontrivial(case):
     cg = case["cg"]
     cp = cg["cps"][0]
@@ -202,6 +357,15 @@ def nontrivial(case):
 
 
 def body(case, acc):
+    if case.get("wide"):
+        vios, info = run_wide(case)
+        acc.case(case, nontrivial_wide(case), sample=text_of(case), n=1)
+        t_ = case["cg"]["params"][0]["type"]
+        acc.label("family:wide types (12-64 bits, interval reference)")
+        acc.label("wide:%s%d" % (t_["kind"], t_["w"]))
+        acc.label("wide:samples", len(case["samples"]))
+        acc.label("wide:bins:auto" if case["cg"]["cps"][0].get("bins") is None else "wide:bins:explicit")
+        return vios
     vios, info = run_case(case)
     cg = case["cg"]
     cp = cg["cps"][0]
@@ -225,13 +389,16 @@ def body(case, acc):
 def shards(tier):
     n = 16
     per = 250 if tier == "quick" else 8000
-    return [{"i": i, "n": per} for i in range(n)]
+    return [{"i": i, "n": per} for i in range(n)] + \
+        [{"kind": "wide", "i": i, "n": 200 if tier == "quick" else 6000} for i in range(4 if tier == "quick" else 8)]
 
 
 def run_shard(spec, seed, tier, acc):
-    hyp.drive(cases(), body, seed, spec["n"], acc)
+    hyp.drive(wide_cases() if spec.get("kind") == "wide" else cases(), body, seed, spec["n"], acc)
     acc.exhaustive = None
 
 
 def replay(case):
+    if case.get("wide"):
+        return run_wide(case)[0]
     return run_case(case)[0]
